@@ -167,15 +167,40 @@ func (ex *Exec) errorText(c *CallCtx, st *State, err IfaceV) (StringV, *State) {
 	if len(res) != 1 || res[0].Panic != nil {
 		abort("UNSUPPORTED", "Error() of %v did not return in a single state", err.T)
 	}
+	ns := &State{G: res[0].G, H: res[0].H, F: st.F, Panics: res[0].Panics}
 	s, ok := res[0].Ret.(StringV)
 	if !ok {
+		// a message kept unrendered by the fmt.Errorf stub: render it now when that gives one text
+		if o, isO := res[0].Ret.(*OpaqueV); isO && o.Kind == "fmtmsg" {
+			m := o.Data.(*fmtMsg)
+			if rs := ex.renderFormat(c, ns, m.Format, m.Args); len(rs) == 1 {
+				return StringV{B: rs[0].out}, rs[0].st
+			}
+		}
 		abort("UNSUPPORTED", "Error() of %v returned an unrendered message", err.T)
 	}
-	return s, &State{G: res[0].G, H: res[0].H, F: st.F, Panics: res[0].Panics}
+	return s, ns
 }
 
 func init() {
-	ExecStd["(*errors.errorString).Error"] = true
+	// (*errors.errorString).Error: the stored text; a message the fmt.Errorf stub kept unrendered is rendered on
+	// demand (one text or UNSUPPORTED), so code that inspects err.Error() sees what fmt would have produced
+	Stubs["(*errors.errorString).Error"] = func(ex *Exec, c *CallCtx) []*callResult {
+		ptr, ok := c.Args[0].(PtrV)
+		if !ok || ptr.Obj == 0 {
+			abort("UNSUPPORTED", "Error() on a nil *errors.errorString")
+		}
+		f := c.St.H.Load(ptr).(*StructV).F[0]
+		if o, isO := f.(*OpaqueV); isO && o.Kind == "fmtmsg" {
+			m := o.Data.(*fmtMsg)
+			rs := ex.renderFormat(c, c.St, m.Format, m.Args)
+			if len(rs) != 1 {
+				return c.ret(f)
+			}
+			return []*callResult{resultIn(rs[0].st, StringV{B: rs[0].out})}
+		}
+		return c.ret(f)
+	}
 	Stubs[assertPkg+"NoError"] = func(ex *Exec, c *CallCtx) []*callResult {
 		err, _ := c.Args[1].(IfaceV)
 		return ex.assertResult(c, term.Bool(err.T == nil), false)
